@@ -228,8 +228,13 @@ def coerce(val, ty):
     if ty[0] == "dyn" and val.ty[0] != "dyn": raise NotImplementedError("to dyn")
     return val.term
 
+def _has_q(e, memo={}):
+    i = e.get_id()
+    if i not in memo: memo[i] = z3.is_quantifier(e) or any(_has_q(c) for c in e.children())
+    return memo[i]
 def feasible(pc):
-    s = z3.Solver(); s.set("timeout", 2000); s.add(*pc); return s.check() != z3.unsat
+    # pruning only: use the quantifier-free part of the path condition (over-approximates feasibility => sound, and fast)
+    s = z3.Solver(); s.set("timeout", 2000); s.add(*[c for c in pc if not _has_q(c)]); return s.check() != z3.unsat
 
 # ----------------------------------------------------------------------------- executor
 class Unsupported(Exception): pass
@@ -561,7 +566,7 @@ class Exec:
         return [(s1, "return", v) for s1, v in self.ev(s.value, st, d)]
     def st_Raise(self, s, st, d):
         name = s.exc.func.id if isinstance(s.exc, ast.Call) else getattr(s.exc, "id", "?")
-        return [(st, "raise", name)]
+        return [(st, "raise", f"{name}@{s.lineno}")]
     def st_Assert(self, s, st, d):
         out = []
         for s1, c in self.ev(s.test, st, d):
